@@ -1,6 +1,7 @@
 import Hcl.Proofs.CheckSpec
 import Hcl.Proofs.EvalCorrect
 import Hcl.Proofs.ActionsVerdict
+import Hcl.Proofs.ConstErrors
 
 /-!
 # C08 — acceptance is decided exactly by the documented width rules
@@ -58,3 +59,32 @@ theorem C08_accepted (fl : Flags) (cls : CharClass) (o : Orders) (stmts : List S
   obtain ⟨w, ew, h1, h2, h3⟩ := assignmentsToActions_rules fl o _ _ _ _ _ _ p.actions ho y86Fixed_table hyp.s1inv.aKeys hact n e hne
   refine ⟨w, ew, h1, (C08_accept_iff_rules fl _ _ e ew).mp h2, ?_⟩
   rw [← C08_target_rule]; exact h3
+
+/-- **C08 for the constants of every accepted program**: every constant definition `const n = e` obeys the rules in the
+    table of the constants themselves (a constant may only mention constants), and the program's value for `n` is the
+    value of `e` (after the width fix-up of case expressions) -/
+theorem C08_accepted_constants (fl : Flags) (cls : CharClass) (o : Orders) (stmts : List Stmt) (p : Program)
+    (ho : OrdersOK o) (hwf : StmtsWF stmts) (h : Program.new fl cls o y86FixedFunctions stmts = .ok p) :
+    ∀ n e, (step1Of stmts).constantsRaw.get? n = some e →
+      ∃ v w, p.constants.get? n = some v ∧
+        Spec.typeOf fl (wOf p.constants).toCtx (alwaysTrue fl p.constants.toEnv) e = some w ∧
+        ev fl p.constants.toEnv (fixMux fl (wOf p.constants).toCtx p.constants.toEnv e) = .ok v := by
+  have hcr := Program_new_constRefs fl cls o stmts p h
+  obtain ⟨s1, c, s3, k, hyp, _, _, hpc, _, _, e1, ec, _, _, _, _⟩ := Program_new_decompose' fl cls o stmts p hwf h
+  subst e1
+  subst hpc
+  intro n e hne
+  obtain ⟨v, hv, hcv⟩ := resolveConstants_rules fl o _ ho hyp.s1inv.cKeys (constRefs_of_nil _ hcr) p.constants ec n e hne
+  unfold constVal checkFixEval at hcv
+  cases hck : check fl (wOf p.constants).toCtx p.constants.toEnv e with
+  | error ds => rw [hck] at hcv; cases hcv
+  | ok w =>
+    rw [hck] at hcv
+    simp only at hcv
+    cases hev : ev fl p.constants.toEnv (fixMux fl (wOf p.constants).toCtx p.constants.toEnv e) with
+    | error err => rw [hev] at hcv; cases hcv
+    | ok v' =>
+      rw [hev] at hcv
+      simp only [Except.ok.injEq] at hcv
+      subst hcv
+      exact ⟨v', w, hv, (C08_accept_iff_rules fl _ _ e w).mp hck, rfl⟩
